@@ -91,30 +91,11 @@ theorem c20_lookup_unique (c : Cfg) (s : St) (k : LookupKind) (name : Bytes) (h 
 
 /-! ## the cache invariant holds in every reachable state -/
 
-inductive QOp where
-  | request (d : ModDef)                       -- interrogate_request_module / _database
-  | lookup (k : LookupKind) (name : Bytes)     -- interrogate_get_*_by_*name
-  | touch                                      -- any other accessor (calls check_latest)
-
-def step (c : Cfg) (s : St) : QOp → St
-  | .request d => s.requestModule d
-  | .lookup k name => (s.lookup c k name).1
-  | .touch => s.checkLatest c
-
 /-- for every sequence of module requests, lookups and other queries — in
 particular files requested after a lookup has been answered — the cached tables
 that are marked fresh agree with the current maps -/
-theorem c20_cache_inv_reachable (c : Cfg) (ops : List QOp) : CacheInv c (ops.foldl (step c) {}) := by
-  suffices ∀ s, CacheInv c s → CacheInv c (ops.foldl (step c) s) from this {} (cacheInv_init c)
-  induction ops with
-  | nil => intro s h; exact h
-  | cons op ops ih =>
-    intro s h
-    apply ih
-    cases op with
-    | request d => exact cacheInv_requestModule c s d h
-    | lookup k name => exact cacheInv_lookup c s k name h
-    | touch => exact cacheInv_checkLatest c s h
+theorem c20_cache_inv_reachable (c : Cfg) (ops : List QOp) : CacheInv c (ops.foldl (qstep c) {}) :=
+  cacheInv_reachable c ops
 
 /-! ## unique names -/
 
